@@ -193,7 +193,15 @@ def argv_stream(ctx, res):
             res.count(f"argv:{tool}:run:{want}")
             case = {"tool": tool, "argv": list(argv), "level": "run"}
             if want != got:
-                res.disagree("argv_model", case, want, [status, out[:200]])
+                # the disk archivers check the archive's extension after parsing (C19.archive_name_rule, stream archive_names): whether they
+                # report a wrong one as an exception or as a usage error (status 2) is not the parser's business
+                gate = False
+                if tool in ("moto_sdar", "moto_fdar") and want == "ok" and got == "error":
+                    m = [x for x in ans[3:].partition(" | ")[0].split(";") if x.startswith(cps("archive") + "=S")]
+                    arch = uncps(m[0].split("=S", 1)[1]) if m else ""
+                    gate = not arch.lower().endswith("." + ARCH[tool]) or "." not in arch
+                if not gate:
+                    res.disagree("argv_model", case, want, [status, out[:200]])
             # the property itself: an argument error leaves with a non-zero status and creates or modifies nothing
             # what the property itself calls an argument error, whatever this tree's run() does with the parser's answer: the parser
             # refuses the line (missing action, two actions, missing archive, a value that is no number, …), or a string is left over
